@@ -25,7 +25,29 @@ WalkPaths(t) == [k \in DOMAIN t.br |-> PathOf(t, k)]
 NodeVarsSeq(t) == LET nl == NodeList(t) IN SelectSeq([i \in DOMAIN nl |-> nl[i][1]], LAMBDA x : x # NULL)
 SameTripleSet(a, b) == {a[i] : i \in DOMAIN a} = {b[i] : i \in DOMAIN b}
 First(cs) == LET S == {i \in DOMAIN cs : ~cs[i][2]} IN IF S = {} THEN <<"ACCEPT", "">> ELSE <<"REJECT", cs[CHOOSE i \in S : \A j \in S : i <= j][1]>>
+\* str(tree) and repr(tree): the nested (variable, branches) structure in Python's notation, two more columns per level
+PyPlain(x) == x = NULL \/ \A i \in 1..Len(x) : Ch(x, i) \in DOMAIN AsciiRank /\ Ch(x, i) \notin {"'", "\\"}
+PyRepr(x) == IF x = NULL THEN "None" ELSE "'" \o x \o "'"
+RECURSIVE SNode(_, _, _, _, _, _), SBranches(_, _, _, _, _, _)
+\* pretty = TRUE: one branch per line (str); FALSE: Python's own repr of the nested tuples and lists
+SNode(t, k, d, var, level, pretty) ==
+    LET nl == level + 2
+        ind == IF pretty THEN SC.lf \o Spaces(nl) ELSE ""
+        r == SBranches(t, k, d, nl, <<>>, pretty)
+    IN <<"(" \o PyRepr(var) \o ", [" \o ind \o Join(r[1], IF pretty THEN "," \o ind ELSE ", ") \o "])", r[2]>>
+SBranches(t, k, d, level, parts, pretty) ==
+    IF k > Len(t.br) \/ t.br[k].d # d THEN <<parts, k>>
+    ELSE LET b == t.br[k] IN
+         IF b.kind = "node"
+         THEN LET n == SNode(t, k + 1, d + 1, b.val, level, pretty) IN
+              SBranches(t, n[2], d, level, Append(parts, "(" \o PyRepr(b.role) \o ", " \o n[1] \o ")"), pretty)
+         ELSE SBranches(t, k + 1, d, level, Append(parts, "(" \o PyRepr(b.role) \o ", " \o PyRepr(b.val) \o ")"), pretty)
+TreeStr(t) == "Tree(" \o SC.lf \o "  " \o SNode(t, 1, 0, t.top, 2, TRUE)[1] \o ")"
+TreeRepr(t) == "Tree(" \o SNode(t, 1, 0, t.top, 2, FALSE)[1] \o ")"
+AllPlain(t) == PyPlain(t.top) /\ \A k \in DOMAIN t.br : PyPlain(t.br[k].role) /\ PyPlain(t.br[k].val)
 TreeV == First(<<
+    <<"tree-str", ~AllPlain(T.tree) \/ T.str = TreeStr(T.tree)>>,
+    <<"tree-repr", ~AllPlain(T.tree) \/ T.repr = TreeRepr(T.tree)>>,
     <<"nodes-in-depth-first-order", T.nodes = NodeVarsSeq(T.tree)>>,
     <<"walk-paths", T.walk = WalkPaths(T.tree)>>,
     <<"tree-equality-ignores-metadata", T.eq_without_meta /\ T.eq_self>> >>)
